@@ -57,3 +57,45 @@ def run_states(run, prop, binp, cases, mode, codes_of_interest, what):
                           {"case": c, "step": k, "observe": r["steps"][k]["v"], "jacobian": r["steps"][k + 1]["v"],
                            "tables": r["steps"][k + 2]["v"], "coq_term": t})
     return results, len(terms), nskip, hist
+
+
+RD_TEXT = {3: "coefficients are not the minimum-norm least-squares solution", 4: "residuals are not W(Y - Phi C) for the minimum-norm coefficients",
+           8: "non-finite coefficients / residuals or wrong shapes"}
+
+
+def run_rankdef(run, prop, binp, rng, n, codes):
+    """exactly rank-deficient basis matrices with a user threshold (truncation active): the minimum-norm
+    minimiser and its residuals are expected, all values finite"""
+    workdir = os.path.join(COQ, "run", prop)
+    rcases = []
+    for i in range(n):
+        fam = list(RANKDEF)[i % len(RANKDEF)]
+        c = gen_problem(rng, family=fam, quant=(8 if i % 3 else None), eps=rng.choice([1e-6, -1e-6, 1e-5]),
+                        builder_made=(i % 4 == 1 and fam != "dup2"), weights=rng.choice(["none", "pos", "unit"]))
+        m = c["meta"]
+        lo, hi = m["range"]
+        a = [hx(v, c["scalar"]) for v in distinct_params(rng, m["P"], lo, hi)]
+        c["ops"] = [["observe"], ["tables"], ["set", a], ["observe"], ["tables"]]
+        c["id"] = 100000 + i
+        rcases.append(c)
+    rres = run_harness(binp, "scenario", rcases, workdir, timeout_ms=20000, tag="rd")
+    rterms, ridx = [], []
+    for c, r in zip(rcases, rres):
+        if r.get("panic") is not None or r.get("timeout") or r["head"].get("build") != "ok":
+            run.violation("rank-deficient problem: construction / update panicked, hung or failed", {"case": c, "result": r})
+            continue
+        sel = RANKDEF[c["meta"]["family"]][3]
+        st = r["steps"]
+        for k in (0, 3):
+            t = num.rankdef_term(c, st[k]["v"], st[k + 1]["v"], sel)
+            if t is not None:
+                rterms.append(t)
+                ridx.append((c, r, k))
+    rcodes = coq_eval(prop, num.HEADER, rterms, per_file_timeout=1800)
+    rhist = {}
+    for (c, r, k), code, t in zip(ridx, rcodes, rterms):
+        rhist[code] = rhist.get(code, 0) + 1
+        if code in codes and code in RD_TEXT:
+            run.violation("rank-deficient state #%d: %s" % (k, RD_TEXT[code]),
+                          {"case": c, "step": k, "observe": r["steps"][k]["v"], "tables": r["steps"][k + 1]["v"], "coq_term": t})
+    return rterms, rhist
